@@ -4,6 +4,7 @@ package wproto
 
 import (
 	"bufio"
+	"encoding/base64"
 	"encoding/json"
 	"fmt"
 	"io"
@@ -12,6 +13,7 @@ import (
 	"strings"
 	"sync"
 	"time"
+	"unicode/utf8"
 )
 
 type Req struct {
@@ -122,6 +124,63 @@ type Rep struct {
 	Held        []string `json:"held,omitempty"`   // Error() of the errors earlier calls of this process returned, read again now (after this call)
 }
 
+// JSON carries valid UTF-8 only (encoding/json replaces every other byte by U+FFFD): strings that are not valid UTF-8
+// travel base64-encoded behind a marker, so that documents, names, outputs and errors arrive byte for byte.
+const b64Marker = "\x00b64:"
+
+func encStr(s string) string {
+	if utf8.ValidString(s) && !strings.HasPrefix(s, b64Marker) {
+		return s
+	}
+	return b64Marker + base64.StdEncoding.EncodeToString([]byte(s))
+}
+
+func decStr(s string) string {
+	if !strings.HasPrefix(s, b64Marker) {
+		return s
+	}
+	b, err := base64.StdEncoding.DecodeString(s[len(b64Marker):])
+	if err != nil {
+		return s
+	}
+	return string(b)
+}
+
+func mapReq(rq *Req, f func(string) string) {
+	rq.Doc, rq.PreDoc = f(rq.Doc), f(rq.PreDoc)
+	for i := range rq.Items {
+		rq.Items[i].N = f(rq.Items[i].N)
+	}
+	for i := range rq.Branches {
+		rq.Branches[i] = f(rq.Branches[i])
+	}
+	for i := range rq.Exts {
+		rq.Exts[i] = f(rq.Exts[i])
+	}
+	for i := range rq.FailNames {
+		rq.FailNames[i] = f(rq.FailNames[i])
+	}
+	for i := range rq.Par {
+		mapReq(&rq.Par[i], f)
+	}
+}
+
+func mapRep(rp *Rep, f func(string) string) {
+	rp.Out, rp.Err, rp.Stray, rp.RawErr = f(rp.Out), f(rp.Err), f(rp.Stray), f(rp.RawErr)
+	for i := range rp.Walk {
+		rp.Walk[i] = f(rp.Walk[i])
+	}
+	for i := range rp.Entries {
+		rp.Entries[i] = f(rp.Entries[i])
+	}
+	for i := range rp.Held {
+		rp.Held[i] = f(rp.Held[i])
+	}
+	for i := range rp.Sub {
+		mapRep(&rp.Sub[i], f)
+	}
+}
+
 // Serve runs the worker loop on stdin/stdout.
 func Serve(handle func(Req) Rep) {
 	in := bufio.NewReaderSize(os.Stdin, 1<<20)
@@ -134,8 +193,10 @@ func Serve(handle func(Req) Rep) {
 				fmt.Fprintln(os.Stderr, "worker: bad request:", e)
 				os.Exit(3)
 			}
+			mapReq(&rq, decStr)
 			rp := handle(rq)
 			rp.ID = rq.ID
+			mapRep(&rp, encStr)
 			b, _ := json.Marshal(rp)
 			out.Write(b)
 			out.WriteByte('\n')
@@ -214,7 +275,17 @@ func (p *Proc) spawn() error {
 func (p *Proc) Call(rq Req, deadline time.Duration) Rep {
 	p.mu.Lock()
 	defer p.mu.Unlock()
-	b, _ := json.Marshal(rq)
+	wire := rq // (a copy: the caller's request keeps its strings)
+	wire.Items = append([]Item{}, rq.Items...)
+	wire.Branches = append([]string{}, rq.Branches...)
+	wire.Exts = append([]string(nil), rq.Exts...)
+	wire.FailNames = append([]string{}, rq.FailNames...)
+	wire.Par = append([]Req{}, rq.Par...)
+	if rq.Exts != nil && wire.Exts == nil {
+		wire.Exts = []string{}
+	}
+	mapReq(&wire, encStr)
+	b, _ := json.Marshal(wire)
 	type res struct {
 		line []byte
 		err  error
@@ -243,6 +314,7 @@ func (p *Proc) Call(rq Req, deadline time.Duration) Rep {
 		if err := json.Unmarshal(r.line, &rp); err != nil {
 			return Rep{ID: rq.ID, Class: "panic", Err: "unparsable worker reply: " + string(r.line)}
 		}
+		mapRep(&rp, decStr)
 		return rp
 	case <-time.After(deadline):
 		// A verdict "does not return" must be a fact about the call, not about the machine: a worker that is still
@@ -254,6 +326,7 @@ func (p *Proc) Call(rq Req, deadline time.Duration) Rep {
 				if r.err == nil && len(r.line) > 0 {
 					var rp Rep
 					if err := json.Unmarshal(r.line, &rp); err == nil {
+						mapRep(&rp, decStr)
 						return rp
 					}
 				}
